@@ -33,7 +33,56 @@ func (c *slowCloseConn) Close() error {
 // (its Wait returns once, within the watchdog), tags on the wire must be unique, Close must
 // return. Run natively and (by bin/check) under the race detector.
 func runC13(h *H) {
-	h.Rule("one imapclient.Client shared by 2..8 goroutines issuing NOOP, STATUS, LIST (streamed), FETCH with a body literal (streamed), SEARCH (with non-ASCII criteria, so that the enabled set is consulted), APPEND (literal-bearing), ENABLE, concurrently with a goroutine calling State/Caps/Mailbox and reading the fields of the returned mailbox snapshot while unilateral EXISTS/EXPUNGE/FLAGS arrive, and with the connection ended at a random moment by the server (close) or by the caller (Client.Close); in half of the runs the connection's Close takes 1-4 ms, so that commands are submitted while the client is tearing down. Oracle: every Wait returns exactly once within the watchdog, with an error if the command had not completed; tags received by the server are pairwise distinct; Close returns; the same run under the Go race detector must report no race whose stack involves imapclient or internal/imapwire. Non-trivial = the run ended the connection while commands were in flight; distinct by seed.")
+	h.Rule("one imapclient.Client shared by 2..8 goroutines issuing NOOP, STATUS, LIST (streamed), FETCH with a body literal (streamed), SEARCH (with non-ASCII criteria, so that the enabled set is consulted), APPEND (literal-bearing), ENABLE, concurrently with a goroutine calling State/Caps/Mailbox and reading the fields of the returned mailbox snapshot while unilateral EXISTS/EXPUNGE/FLAGS arrive, and with the connection ended at a random moment by the server (close) or by the caller (Client.Close); in half of the runs the connection's Close takes 1-4 ms (30 ms when combined with the stop-after-error mode), so that commands are submitted while the client is tearing down; in half of the runs every goroutine stops after its first failed command and one more attempt (so that no later failing write rescues a command orphaned by the teardown). Oracle: every Wait returns exactly once within the watchdog, with an error if the command had not completed; tags received by the server are pairwise distinct; Close returns; the same run under the Go race detector must report no race whose stack involves imapclient or internal/imapwire. Non-trivial = the run ended the connection while commands were in flight; distinct by seed.")
+	// targeted: one command submitted while the client is tearing down after the server went
+	// away, with a slow connection Close and nobody else around to fail a write later
+	for k := 0; k < h.Pick(20, 100); k++ {
+		desc := map[string]interface{}{"scenario": "submit-during-teardown", "round": k}
+		h.InFlight(desc)
+		peer := newPeer("* OK [CAPABILITY IMAP4rev1] ready\r\n")
+		peer.OnCommand = okAll("IMAP4rev1")
+		conn, err := net.Dial("tcp", peer.Addr())
+		if err != nil {
+			panic(err)
+		}
+		client := imapclient.New(&slowCloseConn{Conn: conn, delay: 40 * time.Millisecond}, nil)
+		if err := client.WaitGreeting(); err != nil {
+			h.Fail("greeting", err.Error(), desc)
+			peer.Close()
+			continue
+		}
+		res := make(chan bool, 1)
+		go func() {
+			ok := true
+			for ok {
+				var err error
+				ok = withTimeout(3*time.Second, func() { err = client.Noop().Wait() })
+				if err != nil {
+					break
+				}
+			}
+			// the connection is gone: one more attempt must fail, not hang
+			res <- ok && withTimeout(3*time.Second, func() { client.Noop().Wait() })
+		}()
+		time.Sleep(time.Duration(1+k%3) * time.Millisecond)
+		peer.CloseConn()
+		select {
+		case ok := <-res:
+			if !ok {
+				h.Fail("completion-missing", "a NOOP submitted around the moment the server closed the connection (while the client was closing its side) never completed", desc)
+			}
+		case <-time.After(8 * time.Second):
+			h.Fail("completion-missing", "the NOOP loop did not notice that the server closed the connection", desc)
+		}
+		withTimeout(3*time.Second, func() { client.Close() })
+		peer.Close()
+		h.Eval(fmt.Sprintf("teardown-%d", k))
+		h.Hist("scenario:submit-during-teardown")
+		if h.failed("completion-missing") {
+			break
+		}
+	}
+
 	iters := h.Pick(60, 600)
 	if os.Getenv("VERIF_RACE") != "" {
 		iters = h.Pick(25, 200)
@@ -78,12 +127,18 @@ func runC13(h *H) {
 		// still complete
 		var client *imapclient.Client
 		slow := it%2 == 1
+		stopOnErr := it%4 >= 2
 		if slow {
 			conn, err := net.Dial("tcp", peer.Addr())
 			if err != nil {
 				panic(err)
 			}
-			client = imapclient.New(&slowCloseConn{Conn: conn, delay: time.Duration(1+rng.Intn(4)) * time.Millisecond}, nil)
+			delay := time.Duration(1+rng.Intn(4)) * time.Millisecond
+			if stopOnErr {
+				// long enough for every goroutine's last attempt to fall inside the teardown
+				delay = 30 * time.Millisecond
+			}
+			client = imapclient.New(&slowCloseConn{Conn: conn, delay: delay}, nil)
 		} else {
 			client, _ = peer.dialClient(nil)
 		}
@@ -115,6 +170,7 @@ func runC13(h *H) {
 			wg.Add(1)
 			go func(g int) {
 				defer wg.Done()
+				triedAgain := false
 				for _, kind := range kinds[g] {
 					atomic.AddInt64(&issued, 1)
 					var wait func() error
@@ -152,12 +208,23 @@ func runC13(h *H) {
 						c := client.Enable(imap.CapUTF8Accept)
 						wait = func() error { _, err := c.Wait(); return err }
 					}
-					ok := withTimeout(5*time.Second, func() { wait() })
+					var werr error
+					ok := withTimeout(5*time.Second, func() { werr = wait() })
 					if ok {
 						atomic.AddInt64(&completed, 1)
 					} else {
 						atomic.AddInt64(&hung, 1)
 						return
+					}
+					if werr != nil && stopOnErr {
+						// like most callers: give up soon after the first failure (one more
+						// attempt, submitted while the client is still tearing down) — then nobody
+						// else's failing write can come to the rescue of a command orphaned by the
+						// teardown
+						if triedAgain {
+							return
+						}
+						triedAgain = true
 					}
 				}
 			}(g)
@@ -224,6 +291,9 @@ func runC13(h *H) {
 		h.Hist(fmt.Sprintf("goroutines:%d", n))
 		if slow {
 			h.Hist("conn:slow-close")
+		}
+		if stopOnErr {
+			h.Hist("callers:stop-on-first-error")
 		}
 		if endByServer {
 			h.Hist("ended_by:server")
